@@ -354,6 +354,58 @@ fn main() {{
 }}
 """
 
+PASS['handles_outlive_their_parent_handle'] = f"""//@ kind: pass
+//@ what: everything obtained from a bucket handle is tied to the transaction, not to the handle: it may outlive a temporary or dropped parent handle
+{PRELUDE}
+fn child<'b, 'tx>(tx: &'b Tx<'tx>) -> Result<Bucket<'b, 'tx>, Error> {{
+    let parent = tx.get_bucket("app")?;
+    parent.get_bucket("settings")
+}}
+fn first_value<'b, 'tx>(tx: &'b Tx<'tx>) -> Option<Data<'b, 'tx>> {{
+    let b = tx.get_bucket("b").ok()?;
+    b.get("k")
+}}
+fn main() -> Result<(), Error> {{
+    let db = DB::open("never-run.db")?;
+    let tx = db.tx(true)?;
+    let nested = tx.get_bucket("app")?.get_bucket("settings")?;
+    let created = tx.get_or_create_bucket("app")?.get_or_create_bucket("more")?;
+    let made = tx.create_bucket("fresh")?.create_bucket("inner")?;
+    let kv = tx.get_bucket("b")?.get_kv("k");
+    let data = tx.get_bucket("b")?.get("k");
+    let cursor = tx.get_bucket("b")?.cursor();
+    let pairs = tx.get_bucket("b")?.kv_pairs();
+    let subs = tx.get_bucket("b")?.buckets();
+    let old = tx.get_bucket("b")?.put("k", "v")?;
+    let c = child(&tx)?;
+    let d = first_value(&tx);
+    sink(&(nested, created, made, kv, data, old, c, d));
+    for x in cursor {{ sink(&x); }}
+    for x in pairs {{ sink(&x.kv()); }}
+    for (n, b) in subs {{ sink(&(n.name().len(), b.next_int())); }}
+    tx.commit()
+}}
+"""
+PASS['read_only_transactions_in_parallel'] = f"""//@ kind: pass
+//@ what: several transactions of one handle coexist; data of one may be used while another is open
+{PRELUDE}
+fn main() -> Result<(), Error> {{
+    let db = DB::open("never-run.db")?;
+    let r1 = db.tx(false)?;
+    let r2 = db.tx(false)?;
+    let a = r1.get_bucket("b")?;
+    let b = r2.get_bucket("b")?;
+    let x = a.get("k");
+    let y = b.get("k");
+    sink(&(x, y));
+    drop(a);
+    drop(r1);
+    let z = b.get("k2");
+    sink(&z);
+    Ok(())
+}}
+"""
+
 
 def main():
     os.makedirs(OUT, exist_ok=True)
